@@ -26,15 +26,20 @@ ITER_PASS = {"collect", "into_iter", "iter", "filter", "keys", "cloned", "copied
 
 def run(facts, res):
     bs = backends(facts)
+    # the property excludes the Solid backend ("needs a network and is excluded"): it is counted (floors) but not judged
+    solid = [b for b in bs if b.name() == "SolidAdapter"]
+    bs = [b for b in bs if b.name() != "SolidAdapter"]
     leaf = [b for b in bs if b.kind == "leaf"]
     wrap = [b for b in bs if b.kind == "wrapper"]
+    if solid:
+        res.instance("S1", "SolidAdapter is compiled in: excluded from C17 by the property's quantifier, not judged", solid[0].methods.get("read_object").loc() if solid[0].methods.get("read_object") else None)
     res.rule("S1", "leaf write_object: every store-mutating effect is dominated by an absence test on the same key (write-once)")
     res.rule("S2", "leaf list_objects: every returned key is produced under ends_with(ext) and through strip_suffix(ext)")
     res.rule("S3", "wrappers: same literal appended in read/write/list, same-name delegation, literal stripped from listings")
     res.rule("S4", "read_object: whole value iff length==0 [&& offset==0], else slice offset..offset+length")
     res.rule("S5", "listing consumers re-append the extension constant they listed with")
     feat = set(facts.features)
-    exp_leaf = 1 + ("filesystemadapter" in feat) + ("sqlitedbadapter" in feat) + ("solidadapter" in feat)
+    exp_leaf = 1 + ("filesystemadapter" in feat) + ("sqlitedbadapter" in feat)
     exp_wrap = 1 + ("flate2adapter" in feat) + ("brotliadapter" in feat)
     res.floor("S1", "leaf backends", len(leaf), exp_leaf)
     res.floor("S3", "delegating backends", len(wrap), exp_wrap)
@@ -292,8 +297,10 @@ def check_listing_complete(b, facts, res):
             if ls:
                 judge("filter closure", ls, mb.loc())
         if mb.kind == "closure" and mb.local_ty(0).startswith("std::option::Option<"):
+            from ..common import return_locals as _rl
+            rets_ = _rl(mb)
             for bi, t in mb.calls():
-                if t.dest is not None and t.dest.local == 0 and not t.dest.proj:
+                if t.dest is not None and t.dest.local in rets_ and not t.dest.proj:
                     judge("filter_map closure returning a call's Option", lits_of(mb, bi, facts), mb.loc(t.line))
             for blk in mb.blocks:
                 if blk.cleanup:
@@ -402,6 +409,11 @@ def listing_ok(facts, body, t, ext_names, depth, guarded=False):
                         if pr[0] == "param" or (pr[0] == "field" and peel(pr[1])[0] == "param"):
                             return listing_ok(facts, body, t[2][0], ext_names, depth + 1, guarded)
                     return (s_ok and g, "%s(|..|) at %s: strip_suffix(ext)=%s, ends_with(ext)=%s" % (n, cb.loc(), s_ok, g))
+            # a function item instead of a closure: a pure conversion of the element (`.map(Result::unwrap)`, `.map(str::to_string)`)
+            # leaves the judgement to the stage before it
+            fi = [x for x in walk(t[2][1]) if x[0] == "const" and x[1] == "fn"]
+            if fi and n == "map" and str(fi[0][2]).rsplit("::", 1)[-1] in ("unwrap", "to_string", "to_owned", "clone", "into", "from", "as_str", "expect", "cloned"):
+                return listing_ok(facts, body, t[2][0], ext_names, depth + 1, guarded)
             return False, "%s without analysable closure" % n
         if n == "filter" and len(t[2]) >= 2:
             cl = [x for x in walk(t[2][1]) if x[0] == "closure"]
@@ -616,6 +628,14 @@ def check_ranged_read(b, facts, res):
         for blk in m.blocks:
             if blk.cleanup:
                 continue
+            # `match (offset, length) { (0, 0) => whole, _ => range }`: the tests are integer switches with the arm 0
+            tsw = blk.term
+            if tsw.kind == "switch" and tsw.j.get("discr_ty") in ("usize", "u64", "u32") and any(v_ == 0 for v_, _ in tsw.j["targets"]):
+                nm_sw = roles_in(du.operand_term(tsw.discr, 10), m, r)
+                if "length" in nm_sw:
+                    found_len0 = True
+                if "offset" in nm_sw:
+                    found_off0 = True
             for st in blk.stmts:
                 if st.kind != "assign":
                     continue
@@ -702,8 +722,11 @@ def check_consumers(facts, res):
         if b is None:
             continue
         listed = None
+        lister_ = roles_of(facts).name("lister")
         for bi, t in b.calls():
-            if t.callee is not None and t.callee.trait == ADAPTER_TRAIT and t.callee.name == "list_objects":
+            if t.callee is not None and ((t.callee.trait == ADAPTER_TRAIT and t.callee.name == "list_objects") or
+                                         (t.callee.name == lister_ and t.callee.impl_adt == "datastorage::DataStorage")):
+                # the backend's listing, directly or through the storage's own pass-through (`self.list_raw_items(ext)`)
                 ls = [x[2] for x in walk(arg_term(b, t, 1, 8)) if x[0] == "const" and x[1] == "str"]
                 listed = ls[0] if ls else None
         loader = roles_of(facts).body("pack_loader")
@@ -718,8 +741,18 @@ def check_consumers(facts, res):
         cg_ = cg_of(facts)
         plp = roles_of(facts).path("pack_loader")
         uses_loader = any((not s_.fanout) and any(t_.path == plp or cg_.reaches(t_, plp) for t_ in s_.targets) and
-                          any(contains_call(arg_term(b, s_.term, i_, 30), "list_objects") for i_ in range(1, len(s_.term.args)))
+                          any(contains_call(arg_term(b, s_.term, i_, 30), "list_objects", lister_) for i_ in range(1, len(s_.term.args)))
                           for s_ in cg_.sites[b.path])
+        if not uses_loader:
+            # pipeline form: the listed names are consumed by a closure (`list.iter().try_for_each(|id| self.load(id))`) that hands its
+            # element to the pack loader
+            for s_ in cg_.sites[b.path]:
+                if s_.closures and s_.term.args and contains_call(arg_term(b, s_.term, 0, 30), "list_objects", lister_):
+                    for cb_ in s_.closures:
+                        for cs_ in cg_.sites[cb_.path]:
+                            if (not cs_.fanout) and any(t_.path == plp or cg_.reaches(t_, plp) for t_ in cs_.targets) and \
+                                    any(any(x[0] == "param" and x[1] >= 2 for x in walk(arg_term(cb_, cs_.term, i_, 20))) for i_ in range(1, len(cs_.term.args))):
+                                uses_loader = True
         n += 1
         ok = listed is not None and listed == appended == pe and uses_loader
         res.instance("S5", "%s lists with %r, loader appends %r to the listed (stripped) name: %s" % (name, listed, appended, ok), b.loc())
@@ -762,7 +795,7 @@ def check_consumers(facts, res):
                               "would be stored (or returned) under the key of the whole value" % (b.path, c.path, c.name), b.loc(t.line))
     if any(b.path.startswith("<filesystemadapter::") for b in facts.repo_bodies()):
         res.floor("S6", "io::Read / io::Write calls in the crate (directory backend compiled in)", n6, 4)
-    bs = backends(facts)
+    bs = [b for b in backends(facts) if b.name() != "SolidAdapter"]
     leaf = [b for b in bs if b.kind == "leaf"]
     from ..common import pass_anchors, bypassing_returns
     # S6b: no length-limiting adaptor between the stored bytes and the value handed back: `Read::take(n)` ends the stream after n bytes
